@@ -27,11 +27,12 @@ class _Strtab:
 
 
 def write_object(sections, start_in=b".start", start_sym=b"_start", flags=SHF_ALLOC,
-                 extra_syms=()):
+                 extra_syms=(), start_code=b"\xc3"):
     """sections: list of (name bytes, content bytes) -> every one an SHT_PROGBITS section with
     `flags` and alignment 1. An additional executable section `start_in` holding one `ret` and the
-    global symbol `start_sym` is appended (skipped when start_in is None). extra_syms: list of
-    (symbol name bytes, section index in `sections`) global symbols at offset 0 of that section.
+    global symbol `start_sym` is appended (skipped when start_in is None; `start_code` = its
+    bytes). extra_syms: list of (symbol name bytes, section index in `sections`) global symbols at
+    offset 0 of that section.
     Returns the object file's bytes."""
     shstr, strtab = _Strtab(), _Strtab()
     secs = []  # (name_off, type, flags, data, link, info, align, entsize)
@@ -39,10 +40,11 @@ def write_object(sections, start_in=b".start", start_sym=b"_start", flags=SHF_AL
         secs.append((shstr.add(name), SHT_PROGBITS, flags, bytes(content), 0, 0, 1, 0))
     syms = [struct.pack("<IBBHQQ", 0, 0, 0, 0, 0, 0)]
     if start_in is not None:
-        secs.append((shstr.add(start_in), SHT_PROGBITS, SHF_ALLOC | SHF_EXECINSTR, b"\xc3",
-                     0, 0, 1, 0))
+        secs.append((shstr.add(start_in), SHT_PROGBITS, SHF_ALLOC | SHF_EXECINSTR,
+                     bytes(start_code), 0, 0, 1, 0))
         # STB_GLOBAL<<4 | STT_FUNC
-        syms.append(struct.pack("<IBBHQQ", strtab.add(start_sym), 0x12, 0, len(secs), 0, 1))
+        syms.append(struct.pack("<IBBHQQ", strtab.add(start_sym), 0x12, 0, len(secs), 0,
+                                len(start_code)))
     for sname, idx in extra_syms:
         # STB_GLOBAL<<4 | STT_OBJECT
         syms.append(struct.pack("<IBBHQQ", strtab.add(sname), 0x11, 0, idx + 1, 0, 0))
